@@ -1180,7 +1180,9 @@ func writeOutputs(all []Access, outV, outJ, repo string) {
 	}
 	sb.WriteString("].\n")
 	must(os.MkdirAll(filepath.Dir(outV), 0o755))
-	must(os.WriteFile(outV, []byte(sb.String()), 0o644))
+	if old, err := os.ReadFile(outV); err != nil || string(old) != sb.String() { // unchanged facts keep their time stamp
+		must(os.WriteFile(outV, []byte(sb.String()), 0o644))
+	}
 	must(os.MkdirAll(filepath.Dir(outJ), 0o755))
 	js, _ := json.MarshalIndent(map[string]any{"sites": kept, "facts": len(order), "access_sites": sites,
 		"functions": len(nodes), "multi_roles": cfg.MultiRoles, "dropped_fields": ignF, "atomic_report": atomicReport}, "", " ")
